@@ -739,6 +739,29 @@ theorem h2_to_h2 (authOk : Bool) (b : Block) (r : Req)
       show (pPath == pAuthority) = false by decide, show (pAuthority == pMethod) = false by decide,
       show (pAuthority == pScheme) = false by decide, show (pAuthority == pPath) = false by decide]
 
+/-! ### non-interference: sending does not change the recorded message -/
+
+/-- Converting / sending a recorded request to an HTTP/1 or HTTP/2 hop leaves the stored request unchanged, and — over
+    any history of sends of the same flow (live exchange, then any number of replays to any hops) — every send emits
+    exactly what the first send to that hop would have emitted: the conversion is a function of the message alone. -/
+theorem conversion_keeps_message (r : Req) (fromH2 : Bool) (body : Bytes) (hops : List Hop) :
+    (∀ h, (sendRequest r fromH2 body h).1 = r)
+    ∧ (sendAll r fromH2 body hops).1 = r
+    ∧ (sendAll r fromH2 body hops).2 = hops.map (fun h => (sendRequest r fromH2 body h).2) := by
+  refine ⟨fun h => by cases h <;> rfl, ?_, ?_⟩
+  · induction hops with
+    | nil => rfl
+    | cons h rest ih => cases h <;> simpa [sendAll, sendRequest] using ih
+  · induction hops with
+    | nil => rfl
+    | cons h rest ih => cases h <;> simp [sendAll, sendRequest] at ih ⊢ <;> exact ih
+
+/-- e.g. the recorded HTTP/1 request still has its Host field for the second translation: the replayed block carries
+    the same :authority as the first one -/
+example : (sendAll ⟨[71, 69, 84], sHttp, [], [47], [(sHost, [97, 46, 98])]⟩ false [] [.h2, .h2]).2 =
+    [.inr [(pMethod, [71, 69, 84]), (pScheme, sHttp), (pPath, [47]), (pAuthority, [97, 46, 98])],
+     .inr [(pMethod, [71, 69, 84]), (pScheme, sHttp), (pPath, [47]), (pAuthority, [97, 46, 98])]] := by decide
+
 /-! ### status codes -/
 
 private theorem dec3 : ∀ x : Fin 10, ∀ y : Fin 10, ∀ z : Fin 10, x.val ≠ 0 →
